@@ -40,6 +40,7 @@ func (k vC10Keep) LocalLocator(locator string) (string, error) { return locator,
 func vC10FsLoad(text string, kc keepClient) (fs CollectionFileSystem, kind, detail string) {
 	defer func() {
 		if r := recover(); r != nil {
+			vC10OnlyCodecPanics(r)
 			kind, detail = "panic", fmt.Sprint(r)
 		}
 	}()
@@ -82,6 +83,7 @@ func vC10FsFile(fs CollectionFileSystem, w *vC10World, p string, rnd *rand.Rand)
 	ev = vC10Ev{"ev": "file", "path": vC10Bytes("." + p), "kind": "ok"}
 	defer func() {
 		if r := recover(); r != nil {
+			vC10OnlyCodecPanics(r)
 			ev["kind"], ev["detail"] = "panic", fmt.Sprint(r)
 		}
 		ev["obs"] = obs
@@ -148,6 +150,7 @@ func vC10FsReadAll(fs CollectionFileSystem, p string) (r vC10Ev) {
 	r = vC10Ev{"kind": "ok", "n": 0}
 	defer func() {
 		if x := recover(); x != nil {
+			vC10OnlyCodecPanics(x)
 			r["kind"], r["detail"] = "panic", fmt.Sprint(x)
 		}
 	}()
